@@ -512,7 +512,7 @@ def inner_data_family(fz: Fz, rng):
         k = j.key(b.recs[0]["key"])
         fz.run("inner-claims", "jwt.decode[JWE]", lambda b=b, k=k: j.jwt.decode(b.token, k, registry=j.jwe.JWERegistry(algorithms=["dir", "A128GCM"])), {"payload": pname})
     # deeply nested *header*
-    for depth in (2000, 100000):
+    for depth in (60, 200, 400, 600, 900, 1200, 1500, 1800, 2000, 100000):   # also the window below the parser's own recursion limit
         p64 = b64u_enc(b'{"alg":"HS256","x":' + b"[" * depth + b"]" * depth + b"}")
         sig = b64u_enc(rjws.sign_raw("HS256", RefKey.from_jwk(hs), (p64 + ".e30").encode()))
         tok = f"{p64}.e30.{sig}"
@@ -586,6 +586,12 @@ def run_shard(ctx):
     fz = Fz(ctx)
     rng = ctx.rng
     sh = ctx.shard
+    if sh % 2 == 0 and sh != 0:
+        # warnings raised from joserfc code become exceptions on these shards (python -W error, pytest's filterwarnings = error): an attacker's token
+        # must not be able to turn a warning into an escaping exception
+        from .. import api
+        api.WARNINGS_AS_ERRORS_IN = r"joserfc"
+        ctx.count("shards_with_warnings_as_errors")
     if sh == 0:
         inner_data_family(fz, rng)
     if sh in (1, 2):
@@ -611,7 +617,10 @@ def replay(ctx, case):
     fz = Fz(ctx)
     fam = case.get("family")
     rng = ctx.rng
-    for _ in range(3):
+    for rnd in range(3):
+        if rnd == 1:
+            from .. import api
+            api.WARNINGS_AS_ERRORS_IN = r"joserfc"   # half of the shards run like this
         if fam in ("header-value-class", "member-type", "crit-b64", "segment-content", "segment-count", "member-missing", "optional-members", "recipients-shape"):
             grammar_jws(fz, rng)
             grammar_jwe(fz, rng)
